@@ -419,9 +419,11 @@ def op_invariants(mm0: MetaModel, rng: random.Random) -> List[Mutant]:
         for a in mmg.ancestors(mm0, c):
             if a.invariants:
                 pairs.append((c.name, a.name))
-    if pairs:
+    far = [(c.name, a.name) for c in mm0.classes for a in mmg.ancestors(mm0, c)
+           if a.invariants and a.name not in c.bases]
+    for choice in ([rng.choice(pairs)] if pairs else []) + ([rng.choice(far)] if far else []):
         mm = copy.deepcopy(mm0)
-        cn, an = rng.choice(pairs)
+        cn, an = choice
         inv = rng.choice(mm.find_class(an).invariants)
         mm.find_class(cn).invariants.append(
             Invariant(inv.description, inv.body, inv.form, dict(inv.meta), inv.source_override))
@@ -530,6 +532,99 @@ def op_patterns(mm0: MetaModel, rng: random.Random) -> List[Mutant]:
     return out
 
 
+
+# -------------------------------------------------------------------------------------
+# Self-contained inheritance gadgets (fresh classes appended to the model): the rules about
+# *stacked* members and invariants need particular hierarchy shapes (two unrelated parents,
+# grandparent, diamond) that a random model does not always contain. Every family comes
+# with its control (rule "valid_control:…", predicted to satisfy the rules).
+# -------------------------------------------------------------------------------------
+def _g_class(name: str, bases: Sequence[str] = (), prop: Optional[str] = None, desc: Optional[str] = None,
+             inv_prop: Optional[str] = None, method: Optional[str] = None, abstract: bool = True) -> Class:
+    invs = []
+    if desc is not None:
+        target = inv_prop if inv_prop is not None else prop
+        invs.append(Invariant(desc, mmg.Const(True), "custom", {}, f"len(self.{target}) > 0"))
+    return Class(name=name, is_abstract=abstract, bases=list(bases),
+                 properties=[Property(prop, TPrim("str"))] if prop else [], invariants=invs,
+                 methods=[Method(method, TPrim("bool"), Doc("Compute something."))] if method else [],
+                 with_model_type=True if abstract and not bases else None,
+                 doc=Doc(f"Represent the gadget {name.lower().replace('_', ' ')}."))
+
+
+def op_inheritance_gadgets(mm0: MetaModel, rng: random.Random) -> List[Mutant]:
+    out: List[Mutant] = []
+    base = _fresh(mm0, rng, "Ghost")
+    A, B, C, D = (f"{base}_{x}" for x in "abcd")
+    pw = _fresh(mm0, rng, "ghost").lower()
+    px, py = pw + "_x", pw + "_y"
+    m1, m2 = "compute_" + pw, "render_" + pw
+    da, db = f"Gadget {base}: the first shall hold", f"Gadget {base}: the second shall hold"
+
+    def emit(rule: str, classes: List[Class], note: str) -> None:
+        mm = copy.deepcopy(mm0)
+        mm.classes.extend(classes)
+        out.append(_finish(rule, mm, note))
+
+    def single_arg_ctor(parents: Sequence[str], arg: str) -> mmg.Ctor:
+        return mmg.Ctor(args=[mmg.CtorArg(arg, TPrim("str"), None)],
+                        body=[("super", p, [arg]) for p in parents])
+
+    # --- two unrelated parents -----------------------------------------------------
+    def two(pa: str, pb: str, desc_a: str, desc_b: str, ma: Optional[str], mb: Optional[str]) -> List[Class]:
+        child = _g_class(C, bases=[A, B], abstract=False)
+        if pa == pb:
+            child.ctor_override = single_arg_ctor([A, B], pa)
+        return [_g_class(A, prop=pa, desc=desc_a, method=ma), _g_class(B, prop=pb, desc=desc_b, method=mb), child]
+
+    emit("valid_control:two_unrelated_parents", two(px, py, da, db, m1, m2),
+         f"control: {C} inherits from the unrelated {A} and {B} (different members and descriptions)")
+    emit("invariant_description_from_two_parents", two(px, py, da, da, None, None),
+         f"{C} inherits invariants with the same description {da!r} from the unrelated parents {A} and {B}")
+    emit("property_from_two_parents", two(px, px, da, db, None, None),
+         f"{C} inherits a property {px} from each of the unrelated parents {A} and {B}")
+    emit("method_from_two_parents", two(px, py, da, db, m1, m1),
+         f"{C} inherits a method {m1} from each of the unrelated parents {A} and {B}")
+
+    # --- grandparent / parent / child chain ---------------------------------------------
+    def chain(child_desc: Optional[str], child_prop: Optional[str], child_method: Optional[str],
+              mid_desc: Optional[str] = None) -> List[Class]:
+        top = _g_class(A, prop=px, desc=da, method=m1)
+        mid = _g_class(B, bases=[A], desc=mid_desc, inv_prop=px)
+        bottom = _g_class(C, bases=[B], prop=child_prop, desc=child_desc, inv_prop=px, method=child_method,
+                          abstract=False)
+        if child_prop == px:
+            bottom.ctor_override = mmg.Ctor(args=[mmg.CtorArg(px, TPrim("str"), None)],
+                                            body=[("super", B, [px]), ("assign", px, px)])
+        return [top, mid, bottom]
+
+    emit("valid_control:grandparent_chain", chain(db, py, m2),
+         f"control: {C} < {B} < {A} with different members and descriptions")
+    emit("invariant_description_of_grandparent", chain(da, None, None),
+         f"{C} repeats the description {da!r} of its grandparent {A}")
+    emit("invariant_description_of_parent", chain(db, None, None, mid_desc=db),
+         f"{C} repeats the description {db!r} of its parent {B}")
+    emit("redeclared_property_of_grandparent", chain(None, px, None),
+         f"{C} re-declares the property {px} of its grandparent {A}")
+    emit("redeclared_method_of_grandparent", chain(None, None, m1),
+         f"{C} re-declares the method {m1} of its grandparent {A}")
+
+    # --- diamond -----------------------------------------------------------------
+    def diamond(left_desc: Optional[str], right_desc: Optional[str], top_method: Optional[str] = None) -> List[Class]:
+        return [_g_class(A, prop=px, desc=da, method=top_method),
+                _g_class(B, bases=[A], desc=left_desc, inv_prop=px),
+                _g_class(C, bases=[A], desc=right_desc, inv_prop=px),
+                _g_class(D, bases=[B, C], abstract=False)]
+
+    emit("valid_control:diamond", diamond(None, db),
+         f"control: the invariant and the property of {A} reach {D} along two paths (counted once)")
+    emit("invariant_description_from_two_related_parents", diamond(db, db),
+         f"{D} inherits different invariants with the same description {db!r} from {B} and {C}")
+    emit("method_along_two_paths", diamond(None, None, top_method=m1),
+         f"{D} inherits the method {m1} of {A} along two paths")
+    return out
+
+
 def all_mutants(mm: MetaModel, rng: random.Random, reserved: Dict[str, Any], repeats: int = 2) -> List[Mutant]:
     """mmgen's 18 operators (``repeats`` random sites each) plus the operators above;
     duplicates (same text) removed, the valid text itself never returned."""
@@ -549,6 +644,7 @@ def all_mutants(mm: MetaModel, rng: random.Random, reserved: Dict[str, Any], rep
     out += op_invariants(mm, sub())
     out += op_doc_refs(mm, sub())
     out += op_patterns(mm, sub())
+    out += op_inheritance_gadgets(mm, sub())
     base = mmg.render_source(mm)
     seen = {base}
     uniq = []
